@@ -336,6 +336,11 @@ class SimpleHeatPumpCycle:
             refrigerant=refrigerant,
         )
 
+        # Temperatures are handled in degC internally: bring kelvin input onto that scale
+        if str(t_unit).strip().upper() in ("K", "KELVIN"):
+            Te = Te - 273.15
+            Tc = Tc - 273.15
+
         self._refrigerant = refrigerant
         self._T_evap = Te
         self._T_cond = Tc
